@@ -53,7 +53,8 @@ def run_tlc(module, cfg=None, workers=4, env=None, timeout=3600, simulate=None, 
     jopts = f"-Xss1g"
     if dfs:
         jopts += " -Dtlc2.tool.queue.IStateQueue=StateDeque"
-    cmd = ["java", f"-Xmx{heap}", "-Xss1g", "-XX:+UseParallelGC"]
+    # (TLC leaves an empty tlc-<number> directory in java.io.tmpdir at every start: kept inside the meta directory, which is removed)
+    cmd = ["java", f"-Xmx{heap}", "-Xss1g", "-XX:+UseParallelGC", f"-Djava.io.tmpdir={meta}"]
     if dfs:
         cmd.append("-Dtlc2.tool.queue.IStateQueue=StateDeque")
     cmd += ["-cp", _classpath(), "tlc2.TLC", "-workers", str(workers), "-metadir", meta, "-cleanup",
